@@ -29,6 +29,12 @@ PatMenu == {"*", "a", "a/*", "/*/*/*", "*/*/*/*", "[", "(a", "a,b", "~a", "<1-2>
 \* archived query filters: valid ones, and damaged ones (what-code not a filter's, field missing / retyped, nested 200 deep)
 FiltMenu == {"what1", "what2", "string", "int", "and2", "and-nested3", "msgfilter", "not-a-filter", "what-retyped", "and-kid-missing", "and-kid-retyped", "nest200"}
 
+\* value-bearing filters: EVERY operator of the class (and one past its guard value) x a value that is empty / shorter than / as long as / longer than the
+\* field it is compared with x a node field that is short or empty (the prelude gives every node: raw = 3 bytes, raw0 = 0 bytes, f = "abc", s0 = "", i = two int32s)
+ValueFilts == {"v:raw:" \o ToString(op) \o ":" \o ToString(len) \o ":" \o fld : op \in 0..12, len \in {0, 2, 3, 5}, fld \in {"raw", "raw0"}}
+              \cup {"v:str:" \o ToString(op) \o ":" \o ToString(len) \o ":" \o fld : op \in 0..28, len \in {0, 2, 3, 5}, fld \in {"f", "s0"}}
+              \cup {"v:i32:" \o ToString(op) \o ":" \o ToString(idx) \o ":i" : op \in 0..6, idx \in {0, 1, 5}}
+
 V(sh, a) == <<sh, a>>
 WrongVals == {V("i64", "-1"), V("raw", "8")}
 PatVals   == {V("str", p) : p \in PatMenu} \cup {V("strs", "3")} \cup WrongVals \cup {V("msg", "empty")}
@@ -61,6 +67,7 @@ Reduced(n) == LET vs == FieldVals[n] IN
               \cup (IF n = "!SnKy" THEN {V("cmds", "mixed")} ELSE {})
               \cup {v \in vs : v = V("bool", "1") \/ v = V("i32", "1") \/ v = V("i32", "-1") \/ v = V("flags", "8") \/ v = V("str", "17")}
 KF == {<<Fld("!SnKy", V("str", p)), Fld("!SnFl", V("filt", f))>> : p \in PatMenu, f \in FiltMenu}
+      \cup {<<Fld("!SnKy", V("str", "*")), Fld("!SnFl", V("filt", f))>> : f \in ValueFilts}
 AllPairs == UNION {{<<Fld(n1, v1), Fld(n2, v2)>> : v1 \in Reduced(n1) \cap FieldVals[n1], v2 \in Reduced(n2) \cap FieldVals[n2]} : <<n1, n2>> \in {p \in (DOMAIN FieldVals) \X (DOMAIN FieldVals) : p[1] # p[2]}}
 FieldSets == {<<>>} \cup {<<f>> : f \in Singles} \cup KF \cup (IF Pairs = "all" THEN AllPairs ELSE {})
 
